@@ -2962,7 +2962,593 @@ class StructDecodeBytes(StructFamily):
                 yield c
 
 
-FAMILIES = [SchemaAliasing, RowTransfer, StructDecodeBytes, StructRoundTrip, StructInvalidValue, StructExhaust, StructInvalidSchema, TablePaths, NumpyView, JsonCodec]
+# --------------------------------------------------------------------------
+# every access path that hands out a row object (or metadata) shows the schema-decoded object
+# --------------------------------------------------------------------------
+
+SLOTS = KINDS + ["top", "refseq"]
+
+
+def has_nan(v):
+    if isinstance(v, float):
+        return v != v
+    if isinstance(v, list):
+        return any(has_nan(x) for x in v)
+    if isinstance(v, dict):
+        return any(has_nan(x) for x in v.values())
+    return False
+
+
+def gen_slot(rng, mode, n):
+    """-> (schema | None, n conforming, in-domain, NaN-free values with a non-empty encoding)"""
+    while True:
+        if mode == "none":
+            return None, [bytes(rng.choice([b"raw", b"\x00\x01\xff", b'{"a":1}', b"x", b"[1, 2]"])) + bytes([65 + i]) for i in range(n)]
+        vals = []
+        if mode == "struct":
+            s = gen_struct_schema(rng, depth=rng.choice([1, 2]), plain=True, objnull=False)
+            if not s["properties"] or exhaust_info(s)[0]:
+                continue
+            for _ in range(20 * n):
+                v = asciify(gen_value(rng, s))
+                try:
+                    if ref_valid(s, v) and len(ref_encode(s, v)) > 0 and not has_nan(ref_norm(s, v)):
+                        vals.append(v)
+                except (Domain, SplitChar):
+                    pass
+                if len(vals) == n:
+                    return s, vals
+        else:
+            s = gen_json_schema(rng)
+            for _ in range(20 * n):
+                if "type" not in s:
+                    v = {"k": len(vals), "tag": rng.choice(["a", "é漢", ""]), "l": [1, 2.5, None, {"q": [True]}][:rng.choice([1, 2, 4])]}
+                else:
+                    v = gen_json_value(rng, s)
+                if (isinstance(v, dict) or (v is None and is_objnull(s))) and ref_valid(s, v, struct_codec=False) and not has_nan(v):
+                    vals.append(v)
+                if len(vals) == n:
+                    return s, vals
+
+
+def gen_ts_shape(rng):
+    """a small valid tree sequence, written out row by row in the order the tables require:
+    `ntrees` random topologies over n samples on consecutive intervals (internal node n+i has
+    time i+1 in every tree, so an edge can persist over several trees), sites, mutations (older
+    nodes first within a site), migrations, individuals, populations, provenances"""
+    n = rng.choice([2, 3, 3, 4])
+    ntrees = rng.choice([1, 2, 2, 3, 3, 4, 4])
+    L = 8
+    bps = [0] + sorted(rng.sample(range(1, L), ntrees - 1)) + [L]
+    npop = rng.choice([2, 3])
+    nind = rng.choice([1, 2, 3])
+    nn = 2 * n - 1
+    time = [0.0] * n + [float(i + 1) for i in range(n - 1)]
+    nodes = []
+    for u in range(nn):
+        ind = rng.randrange(nind) if rng.random() < 0.6 else -1
+        if u < nind:
+            ind = u                       # every individual owns a node
+        nodes.append([1 if u < n else 0, time[u], rng.choice([-1] + list(range(npop))), ind])
+    present = {}
+    for j in range(ntrees):
+        active = list(range(n))
+        i = 0
+        while len(active) > 1:
+            k = 3 if len(active) >= 3 and rng.random() < 0.25 else 2
+            ch = rng.sample(active, k)
+            for c in ch:
+                present.setdefault((n + i, c), []).append(j)
+            active = [a for a in active if a not in ch] + [n + i]
+            i += 1
+        if rng.random() < 0.3 and j + 1 < ntrees:
+            pass
+    edges = []
+    for (p, c), js in present.items():
+        a = js[0]
+        for x, y in zip(js, js[1:] + [None]):
+            if y != x + 1:
+                edges.append([float(bps[a]), float(bps[x + 1]), p, c])
+                a = y
+    edges.sort(key=lambda e: (time[e[2]], e[2], e[3], e[0]))
+    nsites = rng.choice([1, 2, 3, 4])
+    sites = sorted(x / 2 for x in rng.sample(range(2 * L), nsites))
+    mutations = []
+    for s in range(nsites):
+        us = rng.sample(range(nn), rng.choice([0, 1, 1, 2, 3]) if s else rng.choice([1, 2]))
+        for u in sorted(us, key=lambda u: (-time[u], u)):
+            mutations.append([s, u, rng.choice("CGT")])
+    migrations = []
+    for i in range(rng.choice([1, 2, 3])):
+        a, b = sorted(rng.sample(range(L + 1), 2))
+        src = rng.randrange(npop)
+        migrations.append([float(a), float(b), rng.randrange(nn), src, (src + 1) % npop, 0.5 + i])
+    individuals = [[rng.choice([0, 1, 1 << 20]), [float(x) for x in range(rng.choice([0, 1, 2]))], ([i - 1] if i and rng.random() < 0.5 else [])]
+                   for i in range(nind)]
+    return {"L": float(L), "nodes": nodes, "edges": edges, "sites": sites, "mutations": mutations, "migrations": migrations,
+            "individuals": individuals, "npop": npop,
+            "provenances": [["2026-01-0%dT00:00:00" % (i + 1), '{"p": %d}' % i] for i in range(rng.choice([1, 2]))]}
+
+
+def build_access_tables(case):
+    """-> (TableCollection | None, {slot: 'ok' | exception class}, [(slot, row, exception class)])"""
+    import tskit
+    sh = case["shape"]
+    ms, cons = {}, {}
+    for slot in SLOTS:
+        ms[slot], cons[slot] = construct(case["schemas"][slot])
+    if any(c != "ok" for c in cons.values()):
+        return None, cons, []
+    vals = {slot: [untag(x) for x in case["values"][slot]] for slot in SLOTS}
+    tc = tskit.TableCollection(sh["L"])
+    for k in KINDS:
+        getattr(tc, k).metadata_schema = ms[k]
+    rejected = []
+
+    def add(slot, i, fn):
+        try:
+            fn(vals[slot][i])
+        except Exception as e:
+            rejected.append([slot, i, exc_name(e)])
+    tc.metadata_schema = ms["top"]
+    add("top", 0, lambda m: setattr(tc, "metadata", m))
+    tc.reference_sequence.metadata_schema = ms["refseq"]
+    add("refseq", 0, lambda m: setattr(tc.reference_sequence, "metadata", m))
+    tc.reference_sequence.data = "ACGTACGT"
+    for i in range(sh["npop"]):
+        add("populations", i, lambda m: tc.populations.add_row(metadata=m))
+    for i, (fl, loc, par) in enumerate(sh["individuals"]):
+        add("individuals", i, lambda m: tc.individuals.add_row(flags=fl, location=loc, parents=par, metadata=m))
+    for i, (fl, t, pop, ind) in enumerate(sh["nodes"]):
+        add("nodes", i, lambda m: tc.nodes.add_row(flags=fl, time=t, population=pop, individual=ind, metadata=m))
+    for i, (l, r, p, c) in enumerate(sh["edges"]):
+        add("edges", i, lambda m: tc.edges.add_row(left=l, right=r, parent=p, child=c, metadata=m))
+    for i, x in enumerate(sh["sites"]):
+        add("sites", i, lambda m: tc.sites.add_row(position=x, ancestral_state="A", metadata=m))
+    for i, (s, u, d) in enumerate(sh["mutations"]):
+        add("mutations", i, lambda m: tc.mutations.add_row(site=s, node=u, derived_state=d, metadata=m))
+    for i, (l, r, u, a, b, t) in enumerate(sh["migrations"]):
+        add("migrations", i, lambda m: tc.migrations.add_row(left=l, right=r, node=u, source=a, dest=b, time=t, metadata=m))
+    for ts_, rec in sh["provenances"]:
+        tc.provenances.add_row(record=rec, timestamp=ts_)
+    return tc, cons, rejected
+
+
+class _Paths:
+    """collects (path, kind, id, metadata, row == reference row) compactly"""
+
+    def __init__(self):
+        self.pool, self.index, self.entries = [], {}, {}
+
+    def md(self, get):
+        try:
+            m = tag(get())
+        except Exception as e:
+            m = {"$exc": exc_name(e)}
+        key = json.dumps(m, sort_keys=True)
+        if key not in self.index:
+            self.index[key] = len(self.pool)
+            self.pool.append(m)
+        return self.index[key]
+
+    def put(self, path, kind, id_, row, ref):
+        """ref: id -> the reference row object (ts.<kind>(id) / tables.<kind>[id]); None = metadata only"""
+        try:
+            id_ = int(id_)
+        except Exception as e:
+            id_ = -99
+        m = self.md((lambda: row.metadata) if kind != "provenances" else (lambda: None))
+        eq = None
+        if ref is not None:
+            try:
+                other = ref(id_)
+                eq = bool(row == other) and bool(other == row) and not bool(row != other)
+            except Exception as e:
+                eq = exc_name(e)
+        self.entries.setdefault(path, []).append([kind, id_, m, eq])
+
+    def value(self, path, kind, get):
+        self.entries.setdefault(path, []).append([kind, 0, self.md(get), None])
+
+
+def walk_ts_paths(tskit, ts, P):
+    """every row-yielding entry point of TreeSequence / Tree / Variant"""
+    ACC = dict(ROW_ACCESSOR, provenances="provenance")
+
+    def ref(kind):
+        return lambda i: getattr(ts, ACC[kind])(i)
+
+    def rows(path, kind, it):
+        for r in it:
+            P.put(path, kind, r.id, r, ref(kind))
+
+    def site_rows(path, sites):
+        sites = list(sites)
+        rows(path, "sites", sites)
+        for s in sites:
+            rows(path + ".mutations", "mutations", s.mutations)
+    for kind in KINDS + ["provenances"]:
+        n = getattr(ts, "num_" + kind)
+        acc = getattr(ts, ACC[kind])
+        rows("ts.%s(i)" % ACC[kind], kind, [acc(i) for i in range(n)])
+        rows("ts.%s(i-n)" % ACC[kind], kind, [acc(i - n) for i in range(n)])
+        seq = getattr(ts, kind)()
+        rows("ts.%s()" % kind, kind, seq)
+        if kind != "mutations":
+            rows("reversed(ts.%s())" % kind, kind, reversed(seq))
+            rows("ts.%s()[i]" % kind, kind, [seq[i] for i in range(len(seq))])
+            rows("list(ts.%s())" % kind, kind, list(seq))
+    rows("ts.nodes(order=timeasc)", "nodes", ts.nodes(order="timeasc"))
+    site_rows("for site in ts.sites()", ts.sites())
+    site_rows("ts.site(position=)", [ts.site(position=x) for x in ts.sites_position])
+    for dname, d in (("FORWARD", tskit.FORWARD), ("REVERSE", tskit.REVERSE)):
+        for term in (False, True):
+            base = "ts.edge_diffs(include_terminal=%s,direction=%s)" % (term, dname)
+            for diff in ts.edge_diffs(include_terminal=term, direction=d):
+                rows(base + ".edges_out", "edges", diff.edges_out)
+                rows(base + ".edges_in", "edges", diff.edges_in)
+            for _, eo, ei in ts.edge_diffs(include_terminal=term, direction=d):
+                rows(base + "[1]", "edges", eo)
+                rows(base + "[2]", "edges", ei)
+    diffs = list(ts.edge_diffs(include_terminal=True))     # the list is consumed after the iterator is exhausted
+    for diff in diffs:
+        rows("list(ts.edge_diffs(include_terminal=True)).edges_out", "edges", diff.edges_out)
+
+    def tree_rows(path, tree):
+        site_rows(path + ".sites()", tree.sites())
+        rows(path + ".mutations()", "mutations", tree.mutations())
+        for u in tree.nodes():
+            e = tree.edge(u)
+            if e != tskit.NULL:
+                rows("ts.edge(tree.edge(u))", "edges", [ts.edge(e)])
+    for tree in ts.trees():
+        tree_rows("ts.trees()", tree)
+        tree_rows("ts.trees().copy()", tree.copy())
+    for tree in reversed(ts.trees()):
+        tree_rows("reversed(ts.trees())", tree)
+    for tree in ts.trees(sample_lists=True, tracked_samples=[0]):
+        tree_rows("ts.trees(sample_lists=True,tracked_samples=)", tree)
+    for tree in ts.aslist():
+        tree_rows("ts.aslist()", tree)
+    tree_rows("ts.first()", ts.first())
+    tree_rows("ts.last()", ts.last())
+    for x in ts.sites_position:
+        tree_rows("ts.at(site position)", ts.at(float(x)))
+    for x in ts.breakpoints(as_array=True)[:-1]:
+        tree_rows("ts.at(breakpoint)", ts.at(float(x)))
+    for j in range(ts.num_trees):
+        tree_rows("ts.at_index(j)", ts.at_index(j))
+        tree_rows("ts.at_index(j-num_trees)", ts.at_index(j - ts.num_trees))
+    t = tskit.Tree(ts)
+    while t.next():
+        tree_rows("Tree(ts).next()", t)
+    while t.prev():
+        tree_rows("Tree(ts).prev()", t)
+    for j in reversed(range(ts.num_trees)):
+        t.seek_index(j)
+        tree_rows("Tree(ts).seek_index(j)", t)
+    for x in ts.sites_position:
+        t.seek(float(x))
+        tree_rows("Tree(ts).seek(x)", t)
+    t.first()
+    tree_rows("Tree(ts).first()", t)
+    t.last()
+    tree_rows("Tree(ts).last()", t)
+    for v in ts.variants():
+        site_rows("ts.variants().site", [v.site])
+    for v in ts.variants(copy=False):
+        site_rows("ts.variants(copy=False).site", [v.site])
+    for v in ts.variants(samples=[0], isolated_as_missing=False):
+        site_rows("ts.variants(samples=).site", [v.site])
+    var = tskit.Variant(ts)
+    for j in reversed(range(ts.num_sites)):
+        var.decode(j)
+        site_rows("Variant(ts).decode(j).site", [var.site])
+        site_rows("Variant(ts).decode(j).copy().site", [var.copy().site])
+    # rows reached through the ids other rows carry
+    for ind in ts.individuals():
+        rows("ts.node(u) for u in individual.nodes", "nodes", [ts.node(u) for u in ind.nodes])
+        rows("ts.individual(p) for p in individual.parents", "individuals", [ts.individual(p) for p in ind.parents if p >= 0])
+    for nd in ts.nodes():
+        if nd.individual >= 0:
+            rows("ts.individual(node.individual)", "individuals", [ts.individual(nd.individual)])
+        if nd.population >= 0:
+            rows("ts.population(node.population)", "populations", [ts.population(nd.population)])
+    for m in ts.mutations():
+        rows("ts.site(mutation.site)", "sites", [ts.site(m.site)])
+        rows("ts.node(mutation.node)", "nodes", [ts.node(m.node)])
+        if m.parent >= 0:
+            rows("ts.mutation(mutation.parent)", "mutations", [ts.mutation(m.parent)])
+        if m.edge >= 0:
+            rows("ts.edge(mutation.edge)", "edges", [ts.edge(m.edge)])
+    for g in ts.migrations():
+        rows("ts.node(migration.node)", "nodes", [ts.node(g.node)])
+        rows("ts.population(migration.source)", "populations", [ts.population(g.source)])
+    for e in ts.edges():
+        rows("ts.node(edge.parent)", "nodes", [ts.node(e.parent)])
+    P.value("ts.metadata", "top", lambda: ts.metadata)
+    P.value("ts.reference_sequence.metadata", "refseq", lambda: ts.reference_sequence.metadata)
+    sch = ts.table_metadata_schemas
+    raw_tc = ts.dump_tables()
+    for kind in KINDS:
+        t_ = getattr(raw_tc, kind)
+        for i in range(len(t_)):
+            P.entries.setdefault("ts.table_metadata_schemas.%s.decode_row(raw)" % ACC[kind], []).append(
+                [kind, i, P.md(lambda: getattr(sch, ACC[kind]).decode_row(raw_row(t_, i))), None])
+    P.value("ts.metadata_schema.decode_row(raw)", "top", lambda: ts.metadata_schema.decode_row(raw_tc.metadata_bytes))
+
+
+def walk_table_paths(tskit, tc, ts, P):
+    """every row-yielding entry point of TableCollection / the table classes, for every way of
+    getting hold of the tables"""
+    import pickle
+    sources = [("tables", lambda: tc), ("ts.tables", lambda: ts.tables), ("ts.dump_tables()", lambda: ts.dump_tables()),
+               ("tables.copy()", lambda: tc.copy()),
+               ("TableCollection.fromdict(tables.asdict())", lambda: tskit.TableCollection.fromdict(tc.asdict())),
+               ("pickle(tables)", lambda: pickle.loads(pickle.dumps(tc))),
+               ("pickle(ts).tables", lambda: pickle.loads(pickle.dumps(ts)).tables)]
+    for sname, get in sources:
+        T = get()
+        P.value(sname + ".metadata", "top", lambda: T.metadata)
+        P.value(sname + ".reference_sequence.metadata", "refseq", lambda: T.reference_sequence.metadata)
+        for kind in KINDS + ["provenances"]:
+            t = getattr(T, kind)
+            n = len(t)
+            ref0 = getattr(tc, kind)
+
+            def ref(i):
+                return ref0[i]
+
+            def rows(path, pairs):
+                for i, r in pairs:
+                    P.put("%s.%s%s" % (sname, kind, path), kind, i, r, ref)
+            rows("[i]", [(i, t[i]) for i in range(n)])
+            rows("[i-n]", [(i, t[i - n]) for i in range(n)])
+            rows(" (iteration)", list(enumerate(t)))
+            rows("[:][i]", list(enumerate(t[:])))
+            rows("[1:][i]", [(i + 1, r) for i, r in enumerate(t[1:])])
+            rows("[::-1][i]", [(n - 1 - i, r) for i, r in enumerate(t[::-1])])
+            rows("[[ids]][i]", [(n - 1 - i, r) for i, r in enumerate(t[list(range(n - 1, -1, -1))])])
+            rows("[mask][i]", [(2 * i, r) for i, r in enumerate(t[[j % 2 == 0 for j in range(n)]])])
+            rows(".copy()[i]", list(enumerate(t.copy())))
+            rows(" via table_name_map", list(enumerate(T.table_name_map[kind])))
+            t2 = type(t)()
+            t2.set_columns(**t.asdict())
+            rows(" via set_columns(**asdict())", list(enumerate(t2)))
+            t3 = type(t)()
+            if kind != "provenances":
+                t3.metadata_schema = t.metadata_schema
+            t3.append_columns(**{k: v for k, v in t.asdict().items() if k != "metadata_schema"})
+            rows(" via append_columns", list(enumerate(t3)))
+            if n > 1:
+                t4 = t.copy()
+                t4.keep_rows([True] * n)             # (dropping rows would renumber parent references)
+                rows(".keep_rows(all)", list(enumerate(t4)))
+                t5 = t.copy()
+                t5.truncate(n - 1)
+                rows(".truncate(n-1)", list(enumerate(t5)))
+            if kind != "provenances":
+                for i in range(n):
+                    P.entries.setdefault("%s.%s.metadata_schema.decode_row(raw)" % (sname, kind), []).append(
+                        [kind, i, P.md(lambda: t.metadata_schema.decode_row(raw_row(t, i))), None])
+
+
+def path_class(path):
+    return re.sub(r"^(tables\.copy\(\)|TableCollection\.fromdict\(tables\.asdict\(\)\)|pickle\(tables\)|pickle\(ts\)\.tables|ts\.tables|ts\.dump_tables\(\)|tables)\.", "T.", path)
+
+
+class AccessPaths(Family):
+    """tree sequences in which every table (and the collection, and the reference sequence) has its
+    OWN struct or JSON schema and non-trivial metadata on every row: every public access path that
+    hands out a row object or metadata — ts.<row>(i), the ts.<rows>() sequences, site.mutations,
+    edge_diffs (both directions, with and without the terminal diff), Tree.sites()/mutations() for
+    trees obtained in every way, Variant.site, table indexing / iteration / slices / copies /
+    asdict / pickle — must show the object decoded with the schema of the row's own table, and the
+    row must equal the one ts.<row>(id) / tables.<table>[id] gives."""
+    name = "access_paths"
+    workers = 4
+    timeout = 120.0
+    shard = 40
+    prelude = "From TskVerif Require Import Base.Common C12.Model C12.RowView.\nOpen Scope Z_scope."
+
+    def generate(self, rng, tier):
+        n = 60 if tier == "quick" else 600
+        for i in range(n):
+            shape = gen_ts_shape(rng)
+            counts = {"individuals": len(shape["individuals"]), "nodes": len(shape["nodes"]), "edges": len(shape["edges"]),
+                      "sites": len(shape["sites"]), "mutations": len(shape["mutations"]), "migrations": len(shape["migrations"]),
+                      "populations": shape["npop"], "top": 1, "refseq": 1}
+            schemas, values, modes = {}, {}, {}
+            for j, slot in enumerate(SLOTS):
+                mode = ("struct", "json")[(i + j) % 2]
+                if rng.random() < 0.08:
+                    mode = "none"
+                s, vals = gen_slot(rng, mode, counts[slot])
+                schemas[slot], values[slot], modes[slot] = s, [tag(v) for v in vals], mode
+            yield {"shape": shape, "schemas": schemas, "values": values, "modes": modes}
+
+    def observe(self, case):
+        import tskit
+        tc, cons, rejected = build_access_tables(case)
+        obs = {"construct": cons}
+        if tc is None:
+            return obs
+        if rejected:
+            obs["rejected"] = rejected
+            return obs
+        try:
+            tc.build_index()
+            tc.compute_mutation_parents()
+            ts = tc.tree_sequence()
+        except Exception as e:
+            obs["ts"] = "%s: %s" % (exc_name(e), str(e)[:200])
+            return obs
+        obs["raw"] = {k: [list(raw_row(getattr(tc, k), i)) for i in range(len(getattr(tc, k)))] for k in KINDS}
+        obs["raw"]["top"] = [list(tc.metadata_bytes)]
+        obs["raw"]["refseq"] = [list(tc.reference_sequence.metadata_bytes)]
+        obs["num_trees"] = int(ts.num_trees)
+        P = _Paths()
+        for name, walk in (("ts", lambda: walk_ts_paths(tskit, ts, P)), ("tables", lambda: walk_table_paths(tskit, tc, ts, P))):
+            try:
+                walk()
+            except Exception as e:
+                import traceback
+                obs.setdefault("walk_failed", []).append("%s: %s: %s | %s" % (name, exc_name(e), str(e)[:200], traceback.format_exc()[-400:]))
+        obs["pool"] = P.pool
+        obs["paths"] = P.entries
+        return obs
+
+    def expected(self, case):
+        return {slot: [tag(expected_object(case["schemas"][slot], tv)) for tv in case["values"][slot]] for slot in SLOTS}
+
+    def expected_ids(self, case):
+        """the ids the iterator-like paths must yield (sorted), from the case alone"""
+        sh = case["shape"]
+        ne = len(sh["edges"])
+        L = sh["L"]
+        out = {}
+        counts = {"individuals": len(sh["individuals"]), "nodes": len(sh["nodes"]), "edges": ne, "sites": len(sh["sites"]),
+                  "mutations": len(sh["mutations"]), "migrations": len(sh["migrations"]), "populations": sh["npop"],
+                  "provenances": len(sh["provenances"])}
+        for kind, n in counts.items():
+            for p in ("ts.%s()", "reversed(ts.%s())", "ts.%s()[i]", "list(ts.%s())"):
+                if not (kind == "mutations" and p != "ts.%s()"):
+                    out[p % kind] = (kind, list(range(n)))
+        out["ts.nodes(order=timeasc)"] = ("nodes", list(range(counts["nodes"])))
+        out["for site in ts.sites()"] = ("sites", list(range(counts["sites"])))
+        out["for site in ts.sites().mutations"] = ("mutations", list(range(counts["mutations"])))
+        out["ts.site(position=)"] = ("sites", list(range(counts["sites"])))
+        out["ts.site(position=).mutations"] = ("mutations", list(range(counts["mutations"])))
+        for d in ("FORWARD", "REVERSE"):
+            for term in (False, True):
+                base = "ts.edge_diffs(include_terminal=%s,direction=%s)" % (term, d)
+                leaving = [i for i, e in enumerate(sh["edges"]) if term or (e[1] < L if d == "FORWARD" else e[0] > 0)]
+                for a, b in ((".edges_out", "[1]"), (".edges_in", "[2]")):
+                    ids = leaving if a == ".edges_out" else list(range(ne))
+                    out[base + a] = ("edges", ids)
+                    out[base + b] = ("edges", ids)
+        out["list(ts.edge_diffs(include_terminal=True)).edges_out"] = ("edges", list(range(ne)))
+        for p in ("ts.trees()", "reversed(ts.trees())", "ts.aslist()", "ts.trees().copy()", "ts.trees(sample_lists=True,tracked_samples=)",
+                  "Tree(ts).next()", "Tree(ts).prev()", "Tree(ts).seek_index(j)", "ts.at_index(j)", "ts.at_index(j-num_trees)"):
+            out[p + ".sites()"] = ("sites", list(range(counts["sites"])))
+            out[p + ".mutations()"] = ("mutations", list(range(counts["mutations"])))
+            out[p + ".sites().mutations"] = ("mutations", list(range(counts["mutations"])))
+        for p in ("ts.variants().site", "ts.variants(copy=False).site", "ts.variants(samples=).site", "Variant(ts).decode(j).site",
+                  "Variant(ts).decode(j).copy().site"):
+            out[p] = ("sites", list(range(counts["sites"])))
+            out[p + ".mutations"] = ("mutations", list(range(counts["mutations"])))
+        return out
+
+    def oracle(self, case, obs):
+        out = []
+        for slot in SLOTS:
+            c = obs["construct"].get(slot, "ok")
+            if c != "ok":
+                s = case["schemas"][slot]
+                r = oracle_construct_valid(s, c) if s.get("codec") == "struct" else [("valid-schema-rejected", "MetadataSchema() raised %s" % c)]
+                out += [] if r is REPAIRED else r
+        if out or any(c != "ok" for c in obs["construct"].values()):
+            return dedup(out)
+        if "rejected" in obs:
+            return [("valid-object-rejected", "a conforming in-domain value was refused on insertion: %r" % (obs["rejected"],))]
+        if "ts" in obs:
+            return [("adapter-tree-sequence", "tables.tree_sequence() failed: %s" % obs["ts"])]
+        for w in obs.get("walk_failed", []):
+            out.append(("access-path-raised", "walking the access paths raised: %s" % w))
+        exp = self.expected(case)
+        # what is stored is the encoding of the object under the slot's own schema
+        for slot in SLOTS:
+            s = case["schemas"][slot]
+            for i, tv in enumerate(case["values"][slot]):
+                v = untag(tv)
+                want = v if s is None else (canonical(v) if s["codec"] == "json" else ref_encode(s, v))
+                got = obs["raw"][slot][i] if i < len(obs["raw"][slot]) else None
+                if got != list(want):
+                    out.append(("access-paths-stored-bytes:" + slot, "row %d of %s stores %r, its schema encodes the object as %r"
+                                % (i, slot, got, list(want))))
+        pool = obs["pool"]
+        for path, entries in obs["paths"].items():
+            bad_md, bad_eq = [], []
+            for kind, id_, m, eq in entries:
+                if kind != "provenances":
+                    want = exp[kind][id_] if 0 <= id_ < len(exp[kind]) else {"$no-such-row": id_}
+                    if not deep_eq(pool[m], want):
+                        bad_md.append("%s %d shows %r, the %s schema decodes its bytes to %r" % (ROW_ACCESSOR.get(kind, kind), id_, pool[m], kind, want))
+                if eq is not None and eq is not True:
+                    bad_eq.append("%s %d: row == reference row gave %r" % (ROW_ACCESSOR.get(kind, kind), id_, eq))
+            if bad_md:
+                out.append(("access-path-metadata:" + path_class(path), "%s: %s" % (path, "; ".join(bad_md[:3]))))
+            if bad_eq:
+                out.append(("access-path-row-differs:" + path_class(path), "%s: %s" % (path, "; ".join(bad_eq[:3]))))
+        if "walk_failed" not in obs:
+            for path, (kind, ids) in self.expected_ids(case).items():
+                got = sorted(e[1] for e in obs["paths"].get(path, []) if e[0] == kind)
+                if got != sorted(ids):
+                    out.append(("access-path-coverage:" + path, "%s yielded %s ids %r, expected %r" % (path, kind, got, sorted(ids))))
+        return dedup(out)
+
+    def coq_check(self, case, obs):
+        """Model.row_view: what any path shows for a row of a struct-schema table is decode_top of
+        the row's stored bytes under THAT table's (modified) schema.  One term per distinct
+        (table, row, shown object); a path that shows undecoded bytes is a disagreement."""
+        if "paths" not in obs:
+            return None
+        tops, index = [], {}
+        for slot in SLOTS:
+            s = case["schemas"][slot]
+            if s is not None and s.get("codec") == "struct":
+                try:
+                    tops.append(coq_top(s))
+                    index[slot] = len(tops) - 1
+                except Untranslatable:
+                    pass
+        if not tops:
+            return None
+        seen = set()
+        for entries in obs["paths"].values():
+            for kind, id_, m, eq in entries:
+                if kind in index and 0 <= id_ < len(obs["raw"][kind]):
+                    seen.add((kind, id_, m))
+        terms = []
+        for kind, id_, m in sorted(seen):
+            shown = obs["pool"][m]
+            if isinstance(shown, dict) and set(shown) in ({"$b"}, {"$exc"}, {"$repr"}):
+                if set(shown) == {"$b"}:
+                    terms.append("false")        # undecoded bytes: no value of the model equals them
+                continue
+            try:
+                od = coq_odec(case["schemas"][kind], shown)
+            except (Untranslatable, TypeError, AttributeError, KeyError):
+                continue
+            terms.append("check_row_view c12_tops %d%%nat %s %s" % (index[kind], coq_bytes(obs["raw"][kind][id_]), od))
+        if not terms:
+            return None
+        return "(let c12_tops := [%s] in %s)" % ("; ".join(tops), " && ".join(terms))
+
+    def nontrivial(self, case, obs):
+        return "paths" in obs and len(obs["paths"]) > 100 and \
+            len(obs["paths"].get("ts.edge_diffs(include_terminal=True,direction=REVERSE).edges_out", [])) > 0
+
+    def describe(self, case, obs):
+        m = case["modes"]
+        return {"edges": m["edges"], "mutations": m["mutations"], "trees": obs.get("num_trees"),
+                "construct": "ok" if all(c == "ok" for c in obs.get("construct", {}).values()) else "refused"}
+
+    def shrink(self, case):
+        # one slot at a time: the smallest schema of its codec, one-field rows
+        tiny = {"struct": ({"codec": "struct", "type": "object", "properties": {"a": {"type": "integer", "binaryFormat": "B"}}},
+                           lambda i: {"a": i + 1}),
+                "json": ({"codec": "json", "type": "object", "properties": {"a": {"type": "integer"}}}, lambda i: {"a": i + 1})}
+        for slot in SLOTS:
+            mode = case["modes"][slot]
+            if mode in tiny and case["schemas"][slot] != tiny[mode][0]:
+                c = json.loads(json.dumps(case))
+                c["schemas"][slot] = tiny[mode][0]
+                c["values"][slot] = [tiny[mode][1](i) for i in range(len(case["values"][slot]))]
+                yield c
+
+
+FAMILIES = [AccessPaths, SchemaAliasing, RowTransfer, StructDecodeBytes, StructRoundTrip, StructInvalidValue, StructExhaust, StructInvalidSchema, TablePaths, NumpyView, JsonCodec]
 
 NOT_COVERED = [
     "stringEncoding other than utf-8/ascii/latin-1 in the Coq model (utf-16/utf-32 variants are generated and checked by the oracle only: strings are byte lists after str.encode in the model)",
@@ -2970,6 +3556,7 @@ NOT_COVERED = [
     "schema string round trip: proved for the model (modify . canon . modify = modify); json.dumps/json.loads text and the lru_cache are differential",
     "round32_impl/widen32_impl satisfy round32 (widen32 w) = Some w only on samples (Example) - the theorems take it as a hypothesis",
     "MetadataSchema.__str__, drop_metadata; packset_metadata / metadata_vector / row.metadata caching / reference_sequence.metadata are oracle-only",
+    "access_paths walks TreeSequence / Tree / Variant / TableCollection / table entry points of ONE tree sequence; rows of derived tree sequences (simplify, subset, union, load/dump, text formats) and the new Mutation objects of Tree.map_mutations (metadata = schema.empty_value) are not walked; JSON- and schema-less tables are oracle-only there (the model's row_view speaks about struct schemas)",
     "jsonschema keywords beyond type/properties/required/additionalProperties/items; meta-schema violations outside the 22 generated rules",
     "integers beyond 2^53 stored in 'f'/'d' fields (int -> float conversion is modelled exactly only up to 2^53; outside in_domain)",
 ]
